@@ -205,6 +205,9 @@ mod verif_kani_c20 {
             let got = compare_lists_ordering(&l, &r);
             assert!(got == Some(want), "C20.cmp.list.ref.b2");
             assert!(compare_lists_ordering(&r, &l) == Some(want.reverse()), "C20.cmp.list.total.b2");
+            // different lengths: the first differing element decides; only a proper prefix is decided by length
+            let want1 = match ref_elem(a1, p1, b1, q1) { Ordering::Equal => Ordering::Less, o => o };
+            assert!(compare_lists_ordering(&l[..1], &r) == Some(want1) && compare_lists_ordering(&r, &l[..1]) == Some(want1.reverse()), "C20.cmp.list.ref.len1_len2.b2");
             // a proper prefix sorts first
             assert!(compare_lists_ordering(&l[..1], &l) == Some(Ordering::Less) && compare_lists_ordering(&l, &l[..1]) == Some(Ordering::Greater), "C20.cmp.list.prefix_first.b2");
             core::mem::forget(l);
